@@ -36,6 +36,7 @@ type Thread struct {
 	lastH    uint64
 	nev      int
 	daemon   bool // model-internal thread (a timer's firing): never reported as parked
+	gosched  bool // set by Gosched for the next scheduling decision
 }
 
 // Ev is a harness-visible event (call/return/observation marker) in the global log.
@@ -301,11 +302,20 @@ func (x *Exec) pick() *Thread {
 		var alts []alt
 		cur := x.cur
 		curReady := cur != nil && x.isReady(cur)
+		gosched := curReady && cur.gosched
+		if cur != nil {
+			cur.gosched = false
+		}
+		if gosched {
+			// runtime.Gosched: the goroutine goes to the back of the run queue - switching away is voluntary (free),
+			// another runnable goroutine goes first, and the caller continues at once only if there is none
+			curReady = false
+		}
 		if curReady {
 			alts = append(alts, alt{t: cur})
 		}
 		for _, t := range x.order {
-			if t == cur && curReady {
+			if t == cur && (curReady || gosched) {
 				continue
 			}
 			if x.isReady(t) {
@@ -317,6 +327,18 @@ func (x *Exec) pick() *Thread {
 				}
 				alts = append(alts, alt{t: t, cost: c})
 			}
+		}
+		if gosched {
+			// continuing the caller although others are runnable is a deviation (cost 1): a spin loop is then
+			// unrolled at most `bound` times instead of without end
+			c := int32(0)
+			if len(alts) > 0 {
+				c = 1
+				if x.sc.Delay {
+					c = int32(len(alts))
+				}
+			}
+			alts = append(alts, alt{t: cur, cost: c})
 		}
 		if len(alts) == 0 {
 			// quiescence: advance the clock to the earliest pending timer
@@ -486,6 +508,18 @@ func Yield() {
 	}
 	x.point(&pend{desc: "yield"})
 	x.hbEvent(nil, kYield, 0)
+}
+
+// Gosched is runtime.Gosched in instrumented code: a voluntary yield after which another runnable goroutine is
+// preferred (a loop that spins on Gosched lets the goroutine it waits for run).
+func Gosched() {
+	x := active()
+	if x == nil {
+		return
+	}
+	x.cur.gosched = true
+	x.point(&pend{desc: "gosched"})
+	x.hbEvent(nil, kYield, 1)
 }
 
 // Event appends a marker to the global log (not a scheduling point).
